@@ -3,6 +3,7 @@ correspondence = every call of the real core/sigagg Aggregator recorded by harne
 key shares, real verifier over a beaconmock) must be a label the model accepts, and must pass the
 monitor that transcribes the property."""
 import collections
+import concurrent.futures
 import json
 import os
 import re
@@ -80,8 +81,10 @@ def main():
     for c in unknown[:3]:
         R.broke("correspondence:Aggregate returned an error the model has no class for: %s" % c["err_text"], json.dumps(spec_of(c)))
     cs = [c for c in cs if c["err"] != "EUnknown"]
-    for shard_i, shard in enumerate(vp.chunks(cs, 1000)):
-        rc, out = vp.coq_eval("C09_%d" % shard_i, cases_v(shard))
+    shards = list(vp.chunks(cs, 400))
+    with concurrent.futures.ThreadPoolExecutor(max_workers=8) as ex:   # shards are independent coqc runs
+        results = list(ex.map(lambda a: vp.coq_eval("C09_%d" % a[0], cases_v(a[1])), enumerate(shards)))
+    for rc, out in results:
         if rc != 0:
             R.broke("correspondence:cases_C09 does not compile", out[-3000:])
             continue
